@@ -152,6 +152,16 @@ def _unwrap(e):
             return e
 
 
+def _point_field(prog, attr):
+    """the private field a read-only property of the HCM point returns (`stress` -> `_stress`); the name itself otherwise"""
+    for k_, fi_ in prog.functions.items():
+        if fi_.name == attr and fi_.cls is not None and fi_.cls.name == "_HCM_Point" and fi_.is_property():
+            body = [s_ for s_ in fi_.node.body if not (isinstance(s_, ast.Expr) and isinstance(s_.value, ast.Constant))]
+            if len(body) == 1 and isinstance(body[0], ast.Return) and is_self_attr(body[0].value):
+                return body[0].value.attr
+    return attr
+
+
 def _r2(ctx):
     from ..cfg import CFG
     from ..dataflow import inline_env
@@ -184,7 +194,8 @@ def _r2(ctx):
         if len(base) != 1 or len(inc) != 1:
             problems.append("%s is not previous + law increment" % attr)
             continue
-        if not (base[0].value.id == prev and base[0].attr == attr):
+        battr = _point_field(prog, base[0].attr)
+        if not (base[0].value.id == prev and battr == attr):
             problems.append("%s increment is added to %s instead of %s.%s" % (attr, norm_text(base[0]), prev, attr))
         c = inc[0]
         if not (isinstance(c.func, ast.Attribute) and is_self_attr(c.func.value, "_notch_approximation_law") and c.func.attr == law[attr]):
